@@ -221,6 +221,12 @@ def refusal_reqs():
     add("enum Ty { #[default] A, #[default] B }", "error", "two default variants")
     add("enum Ty { #[default] A, B, #[default(_)] C(u8) }", "error", "two default variants")
     add("enum Ty { #[default] A(u8), #[default] B, #[default] C }", "error", "three default variants")
+    # two mistakes at once: several default variants, one (or more) of them with a value - in every order
+    add("enum Ty { #[default] A, #[default(10)] B(u8) }", "error", "two default variants, the later one with a value")
+    add("enum Ty { #[default(1)] A(u8), #[default] B }", "error", "two default variants, the earlier one with a value")
+    add("enum Ty { #[default] A, B, #[default(2, bound(..))] C(u8) }", "error", "two default variants, one with a value and a bound")
+    add("enum Ty { #[default(_)] A, #[default(\"x\")] B(String), C }", "error", "two default variants, `_` and a value")
+    add("enum Ty { #[default(Ty::C)] A, #[default] B, #[default] C }", "error", "three default variants, one with a value")
     add("enum Ty { #[default(5)] A(u8), B }", "error", "value on a variant")
     add("enum Ty { A, #[default(Ty::A)] B }", "error", "value on a variant")
     add("enum Ty { #[default(\"x\", bound(..))] A(String) }", "error", "value on the only variant")
